@@ -243,3 +243,32 @@ CONTRACTS += [
                        'result.past_value[1] == reference'),
                       ('timex-is-that-month', 'result.timex == fmt(reference.year, 4) + "-" + fmt(reference.month, 2)')]),
 ]
+
+BDU = DT + 'base_duration.py::BaseDurationParser.'
+_UNITS = '["Y", "MON", "W", "D", "H", "M", "S"]'
+_UNIT_SECONDS = '[31536000, 2592000, 604800, 86400, 3600, 60, 1]'
+_PARSE_NUM = Rec(RT + 'parser.py::ParseResult', dict(start=Const(0), length=Int(1, 6), text=Str(), type=Str(), data=Const(None),
+                                                     meta_data=Const(None), value=Expr('N'), resolution_str=Str()))
+DUR_CFG = Config(values=dict(unit_map=Expr('{"u": U}'), unit_value_map=Expr('{"u": V}'),
+                             cardinal_extractor=Config(funcs=dict(extract=Returns(ListOf(ER(), 1)))),
+                             number_parser=Config(funcs=dict(parse=Returns(_PARSE_NUM)))))
+_DUR_POST = [
+    ('timex-is-P[T]N<unit>', 'result.success and result.timex == "P" + ("T" if k >= 4 else "") + str(N) + U[0]'),
+    ('value-is-N-times-the-unit-length', 'result.future_value == N * V and result.past_value == result.future_value'),
+]
+
+CONTRACTS += [
+    Contract('dp.duration.number_space_unit', BDU + 'parse_number_space_unit', ['C10'],
+             params=dict(N=Int(1, 5000), k=Int(0, 6), U=Expr(f'{_UNITS}[k]'), V=Expr(f'{_UNIT_SECONDS}[k]'),
+                         self=Rec(DT + 'base_duration.py::BaseDurationParser', dict(config=DUR_CFG)), source=Str()),
+             regex_env={'followed_unit': {'mode': 'match', 'groups': {'suffix': '""', 'unit': '"u"'}}, 'suffix_and_regex': 'none'},
+             ensures=_DUR_POST,
+             note='the culture tables are abstracted to one entry u -> (U, V) with V the unit length in seconds (table fact checked separately)'),
+    Contract('dp.duration.number_combined_unit', BDU + 'parse_number_combined_unit', ['C10'],
+             params=dict(N=Int(1, 5000), k=Int(0, 6), U=Expr(f'{_UNITS}[k]'), V=Expr(f'{_UNIT_SECONDS}[k]'),
+                         self=Rec(DT + 'base_duration.py::BaseDurationParser', dict(config=DUR_CFG)), source=Str()),
+             requires=['not (N > 1000 and k <= 2)'],
+             regex_env={'number_combined_with_unit': {'mode': 'match', 'groups': {'num': 'str(N)', 'unit': '"u"'}}, 'suffix_and_regex': 'none'},
+             ensures=_DUR_POST,
+             note='amounts above 1000 combined with year/month/week units are deliberately not parsed by this function'),
+]
